@@ -1,7 +1,7 @@
 (* C15 -- Results are independent of the units of the axis and linear in the data. *)
 From Coq Require Import List Bool Arith ZArith QArith Qcanon.
 From NI Require Import Num Base Lookup Linear Interp Spline Tri TriProofs SplineAlgebra LookupProofs LinearProofs LinearExact
-  SplineProofs Units UnitsList.
+  SplineProofs Units UnitsList BilinearList PeriodicSolve PeriodicLane PeriodicUnits.
 Import ListNotations.
 Local Open Scope Qc_scope.
 
@@ -121,6 +121,28 @@ Theorem C15_linear_additive_list :
 Proof. exact linear_additive. Qed.
 Print Assumptions C15_linear_additive_list.
 
+Theorem C15_bilinear_axis_units :
+  forall (xax yax : list Qc) (data : list (list (list Qc))),
+    StrictIncQc xax -> StrictIncQc yax -> (2 <= length xax)%nat -> (2 <= length yax)%nat ->
+    (Z.of_nat (length xax) <= two64)%Z -> (Z.of_nat (length yax) <= two64)%Z ->
+    length data = length xax -> (forall i, (i < length data)%nat -> length (nth i data []) = length yax) ->
+    forall (ext : bool) (cx sx cy sy x y : Qc), 0 < cx -> 0 < cy ->
+      bilinear_interp NumQc ext (map (aff cx sx) xax) (map (aff cy sy) yax) data (aff cx sx x) (aff cy sy y)
+      = bilinear_interp NumQc ext xax yax data x y.
+Proof. exact bilinear_axis_units. Qed.
+Print Assumptions C15_bilinear_axis_units.
+
+Theorem C15_bilinear_scale_data_list :
+  forall (xax yax : list Qc) (data : list (list (list Qc))),
+    StrictIncQc xax -> StrictIncQc yax -> (2 <= length xax)%nat -> (2 <= length yax)%nat ->
+    (Z.of_nat (length xax) <= two64)%Z -> (Z.of_nat (length yax) <= two64)%Z ->
+    length data = length xax -> (forall i, (i < length data)%nat -> length (nth i data []) = length yax) ->
+    forall (ext : bool) (c x y : Qc),
+      bilinear_interp NumQc ext xax yax (map (map (map (Qcmult c))) data) x y =
+      match bilinear_interp NumQc ext xax yax data x y with Ok v => Ok (map (Qcmult c) v) | e => e end.
+Proof. exact bilinear_scale_data_list. Qed.
+Print Assumptions C15_bilinear_scale_data_list.
+
 (* CubicSpline, any pair of end conditions: in the new units the slopes are k/c (axis x -> c*x+s, the
    derivative values of FirstDeriv / SecondDeriv converted: v/c resp. v/c^2) resp. c*k (data times c,
    derivative values times c) resp. k1 + k2 (sum of data sets) -- by uniqueness of the solution *)
@@ -148,6 +170,27 @@ Theorem C15_spline_slopes_scale_data :
       lane_vec 0 j K' = map (Qcmult c) (lane_vec 0 j K).
 Proof. exact spline_slopes_scale_data. Qed.
 Print Assumptions C15_spline_slopes_scale_data.
+
+(* Periodic boundary (n >= 4): by uniqueness of the solution of the cyclic system *)
+Theorem C15_periodic_slopes_scale_data :
+  forall (xs : list Qc) (data : list (list Qc)) (L j : nat), (j < L)%nat ->
+    (forall i, (i < length data)%nat -> length (nth i data []) = L) ->
+    StrictIncQc xs -> length xs = length data -> (4 <= length data)%nat ->
+    forall (c : Qc) (i : nat), (i < length data)%nat ->
+      nth j (nth i (periodic_k NumQc xs (map (map (Qcmult c)) data) (length data)) []) 0
+      = c * nth j (nth i (periodic_k NumQc xs data (length data)) []) 0.
+Proof. exact periodic_slopes_scale_data. Qed.
+Print Assumptions C15_periodic_slopes_scale_data.
+
+Theorem C15_periodic_slopes_axis_units :
+  forall (xs : list Qc) (data : list (list Qc)) (L j : nat), (j < L)%nat ->
+    (forall i, (i < length data)%nat -> length (nth i data []) = L) ->
+    StrictIncQc xs -> length xs = length data -> (4 <= length data)%nat ->
+    forall (c s : Qc) (i : nat), 0 < c -> (i < length data)%nat ->
+      nth j (nth i (periodic_k NumQc (map (aff c s) xs) data (length data)) []) 0
+      = nth j (nth i (periodic_k NumQc xs data (length data)) []) 0 / c.
+Proof. exact periodic_slopes_axis_units. Qed.
+Print Assumptions C15_periodic_slopes_axis_units.
 
 (* ... and for the whole-data-set boundaries (NotAKnot / Natural / Clamped) the interpolators commute
    with the change of units, for every query (inside the range, or anywhere with extrapolation) *)
@@ -200,8 +243,8 @@ Theorem C15_spline_whole_additive :
 Proof. exact spline_whole_additive. Qed.
 Print Assumptions C15_spline_whole_additive.
 
-(* Partial: the whole-interpolator statements for Bilinear (scalar statements above), for per-lane /
-   Periodic spline boundaries (slope statements above cover any Mixed pair) and the bit-for-bit clause
+(* Partial: additivity of Bilinear at interpolator level (scalar statement above), the whole-interpolator
+   statements for per-lane / Periodic spline boundaries (slope statements above cover any Mixed pair) and the bit-for-bit clause
    for powers of two are validated by the metamorphic runs (exact at rationals, bitwise at f64). *)
 
 Example C15_ex : (* axis in other units: x -> 2x + 3 *)
